@@ -157,6 +157,53 @@ def closure_call_of(raws, raw, t):
     return r
 
 
+AWAITED = "hv::awaited_async_helper"
+_KNOWN_FNS = [None]
+
+
+def awaited_coroutine_of(raws, raw, t):
+    """body path of the coroutine when the call polls the future of an `async fn` that is new relative to the pinned tree (`helper(..).await`):
+    the helper's body then runs in place of the poll, its own `.await`s keeping their yields"""
+    callee = t.get("callee") or ""
+    if not callee.endswith("Future::poll"):
+        return None
+    r = t.get("resolved")
+    if not r or r not in raws or raws[r].get("kind") != "coroutine" or not r.endswith("::{closure#0}"):
+        return None
+    known = _KNOWN_FNS[0]
+    if known is None or owner_fn(r) in known:
+        return None
+    if raw.get("kind") != "coroutine" or t.get("target") is None or t.get("dest") is None or len(t.get("args") or []) != 2:
+        return None
+    if any(b["term"] and b["term"].get("k") == "call" and b["term"].get("resolved") == r for b in raws[r]["blocks"]):
+        return None
+    return r
+
+
+def _inline_awaited(raws, cur, blk, t, cpath):
+    callee = raws[cpath]
+    line = t.get("line", cur.get("line"))
+    off_l, off_b = len(cur["locals"]), len(cur["blocks"])
+    cur["locals"].extend(copy.deepcopy(callee["locals"]))
+    nbs = _renumber(callee["blocks"], off_l, off_b)
+    for nb in nbs:
+        nb["file"] = callee.get("file")
+        nb["from_closure"] = cpath
+        if nb["term"] and nb["term"]["k"] == "return":
+            nb["term"] = {"k": "goto", "target": -1, "line": nb["term"].get("line", line)}
+    cur["blocks"].extend(nbs)
+    ready = {"k": "agg", "agg": "adt", "adt": "std::task::Poll", "variant": "Ready", "vidx": 0, "fields": ["0"], "ops": [_mv(off_l)]}
+    cur["blocks"].append({"cleanup": False, "stmts": [{"pl": copy.deepcopy(t["dest"]), "rv": ready, "line": line}],
+                          "term": {"k": "goto", "target": t["target"], "line": line}, "lowered": AWAITED})
+    fin = len(cur["blocks"]) - 1
+    for nb in nbs:
+        if nb["term"] and nb["term"]["k"] == "goto" and nb["term"]["target"] == -1:
+            nb["term"]["target"] = fin
+    blk["stmts"] = blk["stmts"] + [{"pl": {"l": off_l + 1, "p": []}, "rv": {"k": "use", "o": copy.deepcopy(t["args"][0])}, "line": line},
+                                   {"pl": {"l": off_l + 2, "p": []}, "rv": {"k": "use", "o": copy.deepcopy(t["args"][1])}, "line": line}]
+    blk["term"] = {"k": "goto", "target": off_b, "line": line, "inlined": cpath}
+
+
 def _inline_closure_call(raws, cur, blk, t, cpath):
     callee = raws[cpath]
     line = t.get("line", cur.get("line"))
@@ -197,6 +244,16 @@ def lower_body(raws, path, raw, skip):
         t = blk["term"]
         bi += 1
         if not t or t.get("k") != "call" or blk.get("cleanup"):
+            continue
+        aw = awaited_coroutine_of(raws, cur, t)
+        if aw is not None:
+            if out is None:
+                out = copy.deepcopy(raw)
+                cur = out
+                blk = cur["blocks"][bi - 1]
+                t = blk["term"]
+            _inline_awaited(raws, cur, blk, t, aw)
+            done.append(AWAITED)
             continue
         cc = closure_call_of(raws, cur, t) if CLOSURE_CALL not in skip else None
         if cc is not None:
@@ -490,6 +547,7 @@ def apply(prog, Body):
         return
     known_combs, untracked = load_known_combinators()
     prog.lowered = {}
+    _KNOWN_FNS[0] = known
     for table_name in ("bodies", "elab"):
         table = getattr(prog, table_name)
         raws = {p: b.raw for p, b in table.items()}
